@@ -418,12 +418,16 @@ func ruleDecoderEscape(r *Run, p *Prog) {
 	if !r.Anchor(cx != nil, "ESCAPE", "cbor.decodeStringComplex") {
 		return
 	}
-	ruleEscaperComplex(r, p, "ESCAPE", cx, 1, nil)
+	cxOrig := cx
+	rnb := p.Func(cborRel, "readNBytes")
+	ruleEscaperComplex(r, p, "ESCAPE", p.View(cx, "", nil), 1, nil)
 	for _, name := range []string{"decodeString", "decodeUTF8String"} {
 		f := p.Func(cborRel, name)
 		if !r.Anchor(f != nil, "ESCAPE", "cbor."+name) {
 			continue
 		}
+		// private scan helpers ("index of the first byte that needs escaping") are part of the decoder
+		f = p.View(f, "keep-complex-read", func(g *ssa.Function) bool { return g == cxOrig || g == rnb })
 		// the text: result of the fixed-size read
 		var text ssa.Value
 		eachInstr(f, func(b *ssa.BasicBlock, i int, in ssa.Instruction) {
@@ -445,7 +449,7 @@ func ruleDecoderEscape(r *Run, p *Prog) {
 				return ok && isP && ((op == token.EQL && b) || (op == token.NEQ && !b))
 			})
 		}
-		ruleEscaperFastOn(r, p, "ESCAPE", f, text, nil, cx, exempt)
+		ruleEscaperFastOn(r, p, "ESCAPE", f, text, nil, cxOrig, exempt)
 	}
 	// who asks for the verbatim channel
 	ds := p.Func(cborRel, "decodeString")
